@@ -308,17 +308,27 @@ def run(ck):
             t = p.value.term
             mask = T.app("all", T.app("cmp_Eq", T.sym("bases"), T.sym("lit:'Z'")), (-1,))
             want = T.app("index", T.sym("S"), (("adv", mask),))
+            name = "extract_refbasis_samples:rows whose basis is all Z [%s]" % ",".join(str(c[2]) for c in p.conds)
+            at = t.single_atom() if t is not None else None
+            msk = None
+            if at is not None and isinstance(at, T.App) and at.op == "index" and at.args[0] == T.sym("S") and at.args[1] and isinstance(at.args[1][0], (tuple, list)) and at.args[1][0][0] == "adv" \
+                    and all(tuple(x) == ("slice", None, None, None) for x in at.args[1][1:]):
+                msk = at.args[1][0][1]
             if t == want:
-                ck.ok("C19.R3", "extract_refbasis_samples:rows whose basis is all Z [%s]" % ",".join(str(c[2]) for c in p.conds), ex.site())
-            else:
-                at = t.single_atom()
-                msg = "result %r is not samples[all(bases == 'Z', dim=1)]" % (t,)
-                if "lit:'Z'" not in t.syms():
-                    ck.violation("C19.R3", "extract_refbasis_samples:rows whose basis is all Z", ex.site(), "the reference basis literal 'Z' is not what rows are compared with: %r" % (t,))
-                elif T.app("any", T.app("cmp_Eq", T.sym("bases"), T.sym("lit:'Z'")), (-1,)) in [a for a in [x for x in (at.args[1][0][1],) ]] if (at is not None and isinstance(at, T.App) and at.op == "index" and at.args[1] and isinstance(at.args[1][0], tuple) and at.args[1][0][0] == "adv") else False:
-                    ck.violation("C19.R3", "extract_refbasis_samples:rows whose basis is all Z", ex.site(), "rows with ANY site in Z are kept (must be ALL sites)")
+                ck.ok("C19.R3", name, ex.site())
+            elif t is not None and "lit:'Z'" not in t.syms():
+                ck.violation("C19.R3", name, ex.site(), "the reference basis literal 'Z' is not what rows are compared with: %r" % (t,))
+            elif msk is not None and row_mask_table(msk) is not None:
+                # complete decision: the truth table of the mask over a two-site row (site holds 'Z' / does not)
+                tab = row_mask_table(msk, nsites=3)
+                bad = [row for row, keep in sorted(tab.items(), reverse=True) if keep != all(row)]
+                if not bad:
+                    ck.ok("C19.R3", name, ex.site(), mask=str(msk))
                 else:
-                    ck.undecided("C19.R3", "extract_refbasis_samples:rows whose basis is all Z", ex.site(), msg)
+                    ex_row = " ".join("Z" if z else "X" for z in bad[0])
+                    ck.violation("C19.R3", name, ex.site(), "a row with bases '%s' is %s; exactly the rows whose every site is Z must be returned" % (ex_row, "kept" if tab[bad[0]] else "dropped"))
+            else:
+                ck.undecided("C19.R3", name, ex.site(), "result %r is not samples[<mask over the bases>]" % (t,))
     # ------------------------------------------------------------------ R4 history independence of the enumeration
     from .history import check_history
 
